@@ -157,20 +157,20 @@ static MemberHost g_member_host;
 template <typename St>
 static void start_member_coro(St &st, Slot *slot, int cls, int tag) {
     if (cls == 0)
-        g_member_host.frame<St, 24>(st, slot, tag).detach();
+        g_member_host.frame<St, 204>(st, slot, tag).detach();
     else if (cls == 1)
-        g_member_host.frame<St, 200>(st, slot, tag).detach();
+        g_member_host.frame<St, 268>(st, slot, tag).detach();
     else
-        g_member_host.frame<St, 1004>(st, slot, tag).detach();
+        g_member_host.frame<St, 308>(st, slot, tag).detach();
 }
 template <typename St>
 static void start_coro(St &st, Slot *slot, int cls, int tag) {
     if (cls == 0)
-        frame_coro<St, 16>(st, slot, tag).detach();
-    else if (cls == 1)
-        frame_coro<St, 200>(st, slot, tag).detach();
+        frame_coro<St, 200>(st, slot, tag).detach();  // the three size classes lie within a factor of 1.5: a storage that grows
+    else if (cls == 1)                                // geometrically must still give every frame a block of at least its size
+        frame_coro<St, 260>(st, slot, tag).detach();
     else
-        frame_coro<St, 1000>(st, slot, tag).detach();
+        frame_coro<St, 300>(st, slot, tag).detach();
 }
 
 enum Policy { P_DEFAULT = 0, P_REUSABLE, P_MTSAFE, P_STACK, P_PLACEMENT, P_BUFFER, P_EXTRA_DEFAULT, P_EXTRA_REUSABLE, P_EXTRA_MTSAFE, P_BUFFER24, P_EXTRA16_DEFAULT, P_EXTRA16_REUSABLE, NPOL };
